@@ -3,6 +3,7 @@ package main
 import (
 	"fmt"
 	"go/ast"
+	"go/constant"
 	"go/token"
 	"strings"
 )
@@ -26,7 +27,7 @@ var fieldTable = map[string]string{
 	"tree": "tree", "allowedMethods": "allowedMethods", "allowedReqHdrs": "allowedReqHdrs", "acah": "acah",
 	"credentialed": "credentialed", "allowAnyMethod": "allowAnyMethod", "asteriskReqHdrs": "asteriskReqHdrs",
 	"allowAuthorization": "allowAuthorization", "privateNetworkAccess": "pna", "privateNetworkAccessNoCors": "pnaNoCors",
-	"acma": "acma", "aceh": "aceh",
+	"acma": "acma", "aceh": "aceh", "preflightStatusMinus200": "statusMinus200",
 }
 
 var paramTypes = map[string]string{
@@ -34,9 +35,21 @@ var paramTypes = map[string]string{
 }
 
 type tr struct {
-	bad   []string
-	state string // name of the header map the function updates: "buf" (bool functions) or "resHdrs" (void functions)
-	void  bool   // the function returns nothing: `return` and the end of the body yield the state
+	bad    []string
+	state  string // name of the header map the function updates: "buf" (bool functions) or "resHdrs" (void functions)
+	void   bool   // the function returns nothing: `return` and the end of the body yield the state
+	status bool   // a void function that takes the ResponseWriter: the result is (header map, status written if any)
+	p      *pkgInfo
+}
+
+// the bool steps that take the buffer first (translated themselves): a call `icfg.M(buf, …)` in an `if` condition
+var stepMethods = map[string]bool{"processOriginForPreflight": true, "processACRPN": true, "processACRM": true, "processACRH": true}
+
+func (t *tr) final() string {
+	if t.status {
+		return "(" + t.state + ", status)"
+	}
+	return t.state
 }
 
 func (t *tr) unsupported(n ast.Node) string {
@@ -78,11 +91,16 @@ func (t *tr) expr(e ast.Expr) string {
 				return "((" + t.expr(e.X) + ").isEmpty)"
 			}
 		}
-		ops := map[token.Token]string{token.LAND: "&&", token.LOR: "||", token.EQL: "==", token.NEQ: "!="}
+		ops := map[token.Token]string{token.LAND: "&&", token.LOR: "||", token.EQL: "==", token.NEQ: "!=", token.ADD: "+"}
 		if op, ok := ops[e.Op]; ok {
 			return "(" + t.expr(e.X) + " " + op + " " + t.expr(e.Y) + ")"
 		}
 	case *ast.SelectorExpr:
+		if id, ok := e.X.(*ast.Ident); ok && id.Name == "http" && t.p != nil {
+			if tv, ok := t.p.info.Types[e]; ok && tv.Value != nil && tv.Value.Kind() == constant.Int {
+				return tv.Value.ExactString() // http.StatusForbidden
+			}
+		}
 		if id, ok := e.X.(*ast.Ident); ok {
 			switch id.Name {
 			case "icfg":
@@ -100,6 +118,10 @@ func (t *tr) expr(e ast.Expr) string {
 			args = append(args, t.expr(a))
 		}
 		switch {
+		case fn == "int" && len(args) == 1: // conversion of the uint8 field to int before the addition: no wrap-around
+			return args[0]
+		case fn == "append" && len(args) == 2:
+			return "(" + args[0] + " ++ [" + args[1] + "])"
 		case fn == "methods.IsSafelisted" && len(args) == 1:
 			return "(Methods.isSafelisted " + args[0] + ")"
 		case fn == "icfg.tree.IsEmpty" && len(args) == 0:
@@ -126,7 +148,7 @@ func (t *tr) isState(e ast.Expr) bool {
 func (t *tr) stmts(list []ast.Stmt, ind string) string {
 	if len(list) == 0 {
 		if t.void {
-			return t.state
+			return t.final()
 		}
 		t.bad = append(t.bad, "<falls off the end>")
 		return `(GoRt.unsupported "<falls off the end>")`
@@ -135,7 +157,7 @@ func (t *tr) stmts(list []ast.Stmt, ind string) string {
 	switch s := s.(type) {
 	case *ast.ReturnStmt:
 		if t.void && len(s.Results) == 0 {
-			return t.state
+			return t.final()
 		}
 		if !t.void && len(s.Results) == 1 {
 			if id, ok := s.Results[0].(*ast.Ident); ok {
@@ -158,6 +180,13 @@ func (t *tr) stmts(list []ast.Stmt, ind string) string {
 		if s.Tok == token.DEFINE && len(s.Lhs) == 1 && len(s.Rhs) == 1 && t.isState(s.Lhs[0]) && exprText(s.Rhs[0]) == "w.Header()" {
 			// `resHdrs := w.Header()`: the writer's header map is the function's input state
 			return t.stmts(rest, ind)
+		}
+		if s.Tok == token.DEFINE && len(s.Lhs) == 1 && len(s.Rhs) == 1 {
+			if id, ok := s.Lhs[0].(*ast.Ident); ok && id.Name == "buf" {
+				if c, ok := s.Rhs[0].(*ast.CallExpr); ok && exprText(c.Fun) == "make" && len(c.Args) >= 1 && exprText(c.Args[0]) == "http.Header" {
+					return "let buf : Buf := HdrMap.empty\n" + ind + t.stmts(rest, ind)
+				}
+			}
 		}
 		if s.Tok == token.DEFINE && len(s.Rhs) == 1 {
 			var names []string
@@ -182,7 +211,7 @@ func (t *tr) stmts(list []ast.Stmt, ind string) string {
 					projs = []string{".1", ".2"}
 				}
 			case *ast.IndexExpr:
-				if len(names) == 2 && !t.isState(r.X) {
+				if len(names) == 2 {
 					rhs = "GoRt.lookup " + t.expr(r.X) + " " + t.expr(r.Index)
 					projs = []string{".1", ".2"}
 				}
@@ -197,7 +226,20 @@ func (t *tr) stmts(list []ast.Stmt, ind string) string {
 				return out + t.stmts(rest, ind)
 			}
 		}
+	case *ast.DeclStmt:
+		if gd, ok := s.Decl.(*ast.GenDecl); ok && gd.Tok == token.CONST {
+			return t.stmts(rest, ind) // local constants are evaluated where they are used (size hints only)
+		}
 	case *ast.ExprStmt:
+		if c, ok := s.X.(*ast.CallExpr); ok {
+			fn := exprText(c.Fun)
+			if fn == "maps.Copy" && len(c.Args) == 2 && t.isState(c.Args[0]) {
+				return "let " + t.state + " := HdrMap.copy " + t.state + " " + t.expr(c.Args[1]) + "\n" + ind + t.stmts(rest, ind)
+			}
+			if fn == "w.WriteHeader" && len(c.Args) == 1 && t.status {
+				return "let status : Option Nat := some " + t.expr(c.Args[0]) + "\n" + ind + t.stmts(rest, ind)
+			}
+		}
 		if c, ok := s.X.(*ast.CallExpr); ok && len(c.Args) == 2 {
 			if sel, ok := c.Fun.(*ast.SelectorExpr); ok && t.isState(sel.X) && (sel.Sel.Name == "Add" || sel.Sel.Name == "Set") {
 				op := map[string]string{"Add": "HdrMap.add", "Set": "HdrMap.set"}[sel.Sel.Name]
@@ -241,6 +283,21 @@ func (t *tr) stmts(list []ast.Stmt, ind string) string {
 			}
 		}
 	case *ast.IfStmt:
+		// `if !icfg.step(buf, args…) { … }`: the step updates the buffer and reports success
+		if u, ok := s.Cond.(*ast.UnaryExpr); ok && u.Op == token.NOT && s.Init == nil && s.Else == nil {
+			if c, ok := u.X.(*ast.CallExpr); ok && len(c.Args) >= 1 {
+				if sel, ok := c.Fun.(*ast.SelectorExpr); ok && exprText(sel.X) == "icfg" && stepMethods[sel.Sel.Name] && exprText(c.Args[0]) == "buf" {
+					var args []string
+					for _, a := range c.Args[1:] {
+						args = append(args, t.expr(a))
+					}
+					in := ind + "  "
+					thenList := append(append([]ast.Stmt{}, s.Body.List...), rest...)
+					return "let r__ := " + sel.Sel.Name + " icfg buf " + strings.Join(args, " ") + "\n" + ind + "let buf := r__.2\n" + ind +
+						"if (!r__.1) then\n" + in + t.stmts(thenList, in) + "\n" + ind + "else\n" + in + t.stmts(rest, in)
+				}
+			}
+		}
 		if s.Init == nil {
 			thenList := append(append([]ast.Stmt{}, s.Body.List...), rest...)
 			var elseList []ast.Stmt
@@ -263,8 +320,8 @@ func translatePipeline(pkgs map[string]*pkgInfo) string {
 	p := pkgs["cors"]
 	var b strings.Builder
 	b.WriteString("/- GENERATED by /verif/harness/extract (translate.go) from the working tree of /repo. Do not edit. -/\n")
-	b.WriteString("import CorsVerif.Model.GoRt\n\nnamespace Cors.Gen.Pipeline\nopen Cors Cors.Gen Cors.Serve\n\n")
-	want := []string{"processOriginForPreflight", "processACRPN", "processACRM", "processACRH", "handleNonCORS", "handleCORSActual"}
+	b.WriteString("import CorsVerif.Model.GoRt\n\nnamespace Cors.Gen.GoSrc\nopen Cors Cors.Gen Cors.Serve\n\n")
+	want := []string{"processOriginForPreflight", "processACRPN", "processACRM", "processACRH", "handleNonCORS", "handleCORSActual", "handleCORSPreflight"}
 	for _, w := range want {
 		var fd *ast.FuncDecl
 		if p != nil {
@@ -280,7 +337,7 @@ func translatePipeline(pkgs map[string]*pkgInfo) string {
 			fmt.Fprintf(&b, "/-- `%s` is missing from the source. -/\ndef %s : Unit := ()\n\n", w, w)
 			continue
 		}
-		t := &tr{state: "buf"}
+		t := &tr{state: "buf", p: p}
 		if fd.Type.Results == nil || len(fd.Type.Results.List) == 0 {
 			t.void, t.state = true, "resHdrs"
 		}
@@ -289,8 +346,9 @@ func translatePipeline(pkgs map[string]*pkgInfo) string {
 			tyText := exprText(fl.Type)
 			ty, ok := paramTypes[tyText]
 			if tyText == "http.ResponseWriter" && t.void {
-				// the writer is used through `resHdrs := w.Header()` only
+				// the writer is used through `resHdrs := w.Header()` and `w.WriteHeader(status)` only
 				params += " (resHdrs : HdrMap)"
+				t.status = true
 				continue
 			}
 			if !ok {
@@ -311,12 +369,16 @@ func translatePipeline(pkgs map[string]*pkgInfo) string {
 		if t.void {
 			res = "HdrMap"
 		}
+		if t.status {
+			res = "HdrMap × Option Nat"
+			body = "let status : Option Nat := none\n  " + body
+		}
 		fmt.Fprintf(&b, "/-- `%s`, translated from: %s -/\n", w, strings.ReplaceAll(codeText(fd.Body), "-/", "- /"))
 		fmt.Fprintf(&b, "def %s %s : %s :=\n  %s\n\n", w, params, res, body)
 		if len(t.bad) > 0 {
 			fmt.Fprintf(&b, "/- UNSUPPORTED in %s: %s -/\n\n", w, strings.ReplaceAll(strings.Join(t.bad, " ;; "), "-/", "- /"))
 		}
 	}
-	b.WriteString("end Cors.Gen.Pipeline\n")
+	b.WriteString("end Cors.Gen.GoSrc\n")
 	return b.String()
 }
